@@ -533,16 +533,31 @@ class Fn:
                 # the head and the tail get their listed meaning, the statements in between are translated as usual
                 self.i += bh[0]
                 h_ = bh[1]
-                out += [pad + ln_ for ln_ in h_.get("before", "").split("\n") if ln_]
+                before_ = h_.get("before", "")
+                fin_ = None
+                if h_.get("loop"):
+                    # a loop whose HEAD is listed: a fuel loop like `while`, left in an orderly way through @FIN@ (or a `break` in its body)
+                    self.has_while = True
+                    self.nloop += 1
+                    fin_ = f"fin{self.nloop}"
+                    out.append(f"{pad}let mut {fin_} := false")
+                    before_ = before_.replace("@FIN@", fin_)
+                    self.loop_stack.append(fin_)
+                out += [pad + ln_ for ln_ in before_.split("\n") if ln_]
                 saved = self.tail_var
                 self.tail_var = h_.get("tail_var")
                 body = self.stmts(ind + h_.get("indent", 0), "}")
                 self.tail_var = saved
                 self.eat("}")
+                if fin_:
+                    self.loop_stack.pop()
                 for c_ in tokenize(h_.get("close", "")):
                     self.eat(c_)
                 out += body or ([" " * (ind + h_.get("indent", 0)) + "pure ()"] if h_.get("indent", 0) else [])
                 out += [pad + ln_ for ln_ in h_.get("after", "").split("\n") if ln_]
+                if fin_:
+                    out.append(f"{pad}if !{fin_} then")
+                    out.append(f"{pad}  return none")
                 continue
             if hit:
                 self.i += hit[0]
@@ -645,7 +660,7 @@ class Fn:
             elif tok == "match":
                 out += self.match_(ind)
             elif self.is_effect_call():
-                out.append(pad + self.effect_stmt(question_ok=True))
+                out += [pad + ln_ for ln_ in self.effect_stmt(question_ok=True).split("\n")]
             elif tok == "continue":
                 self.eat()
                 self.eat(";")
@@ -715,6 +730,20 @@ class Fn:
                 self.eat()
                 out.append(f"{pad}  {self.loop_stack[-1]} := true")
                 out.append(f"{pad}  break")
+            elif self.is_effect_call():
+                # `pattern => effect(args)?,` — the call with its listed meaning (no `;`: the arm's value is `()`)
+                parts = []
+                while IDENT.match(self.peek()) or self.peek() == "::":
+                    parts.append(self.eat())
+                name = "".join(parts)
+                a = self.args()
+                q = False
+                if self.peek() == "?":
+                    self.eat(); q = True
+                fallible, fn = self.effects[name]
+                if fallible != q:
+                    raise TranslateError(f"{name}: error handling changed (`?` {'expected' if fallible else 'unexpected'})")
+                out += [f"{pad}  {ln_}" for ln_ in fn(a).split("\n")]
             elif self.tail_var:
                 out.append(f"{pad}  {self.tail_var} := {self.expr()}")
             else:
@@ -1090,6 +1119,48 @@ FUNCS = [
                    ("self.read_buf.resize(header.length as usize, 0);", "let alloc := header.length"),
                    ("reader.read_exact(&mut self.read_buf)?;", "let some (read_buf, rest2) := rdN header.length rest | return none"),
                    ("Message::decode(&self.read_buf)", "return (decodeMsg utf8 read_buf).map fun m => (m, rest2, alloc)")]),
+    # ---- serve.rs::serve: the prologue, then the dispatch loop (handlers = the model's `handle`, translated on their own above)
+    dict(group="wire", file="src/bin/copia/wire.rs", name="read_magic", sig=None, option=True, no_loop=True,
+         lean="def readMagic (inp : Copia.Hub.Bytes) : Option (Bool × Copia.Hub.Bytes) := Id.run do",
+         idents={"MAGIC": "Copia.Gen.wireMagic"}, paths={}, calls={},
+         verbatim=[("let mut m = [0u8; 6];", ""),
+                   ("r.read_exact(&mut m)?;", "if inp.length < 6 then\n  return none\nlet m := inp.take 6\nlet rest := inp.drop 6"),
+                   ("Ok(&m == MAGIC)", "return (some (m == Copia.Gen.wireMagic, rest))")]),
+    dict(group="wire", file="src/bin/copia/serve.rs", name="serve", sig=None, option=True,
+         lean="def serveGen {H : Type} [DecidableEq H] (hash : Copia.Hub.Bytes → H) (short : H → List Char) (decode : Copia.Hub.Bytes → Option (Req H))\n"
+              "    (fuel : Nat) (inp : Copia.Hub.Bytes) (t : HTree) : Option (Session H) := Id.run do\n"
+              "  -- world: the unread input, the served tree, the replies written and the frame buffers reserved so far\n"
+              "  let mut input := inp\n  let mut tree := t\n  let mut replies : List (Reply H) := []\n  let mut allocs : List Nat := []",
+         retval="(some { replies := replies, tree := tree, exit := Exit.clean, allocs := allocs })",
+         idents={"VERSION": "Copia.Gen.wireVersion", "hash": "hash_"},
+         paths={"Request::List": "Req.list", "Request::Get": "Req.get", "Request::Put": "Req.put", "Request::Delete": "Req.delete", "Request::Bye": "Req.bye",
+                "Response::Fingerprints": "Reply.fingerprints"},
+         patterns={"Request::Hello { .. }": "Req.hello _"},
+         struct_ctors={"Response::Hello": ("Reply.hello", ["version"])},
+         calls={"Ok": lambda a: "OK"},
+         effects={"write_frame": (True, lambda a: f"replies := replies ++ [{a[1]}]"),
+                  "handle_get": (True, lambda a: "let st := Copia.Hub.handle hash short tree (Req.get path) input\nif st.fatal then\n  return (some { replies := replies, tree := tree, exit := Exit.ioError, allocs := allocs })\ntree := st.tree\ninput := input.drop st.consumed\nmatch st.reply with\n| some r_ => replies := replies ++ [r_]\n| none => pure ()"),
+                  "handle_put": (True, lambda a: "let st := Copia.Hub.handle hash short tree (Req.put path expected len hash_) input\nif st.fatal then\n  return (some { replies := replies, tree := tree, exit := Exit.ioError, allocs := allocs })\ntree := st.tree\ninput := input.drop st.consumed\nmatch st.reply with\n| some r_ => replies := replies ++ [r_]\n| none => pure ()"),
+                  "handle_delete": (True, lambda a: "let st := Copia.Hub.handle hash short tree (Req.delete path expected) input\nif st.fatal then\n  return (some { replies := replies, tree := tree, exit := Exit.ioError, allocs := allocs })\ntree := st.tree\ninput := input.drop st.consumed\nmatch st.reply with\n| some r_ => replies := replies ++ [r_]\n| none => pure ()")},
+         block_heads=[dict(rust="while let Some(req) = read_frame::<_, Request>(&mut r)? {", indent=4, loop=True,
+                           before="for _ in List.replicate fuel () do\n"
+                                  "  match readFrame decode input with\n"
+                                  "  | FrameRes.eof =>\n    @FIN@ := true\n    break\n"
+                                  "  | FrameRes.tooLarge => return (some { replies := replies, tree := tree, exit := Exit.frameTooLarge, allocs := allocs })\n"
+                                  "  | FrameRes.short a_ => return (some { replies := replies, tree := tree, exit := Exit.ioError, allocs := allocs ++ [a_] })\n"
+                                  "  | FrameRes.badBody a_ => return (some { replies := replies, tree := tree, exit := Exit.badBody, allocs := allocs ++ [a_] })\n"
+                                  "  | FrameRes.frame req a_ rest_ =>\n    allocs := allocs ++ [a_]\n    input := rest_")],
+         verbatim=[("std::fs::create_dir_all(root)?;", ""),
+                   ('let lockdir = root.join(".copia");', ""),
+                   ("std::fs::create_dir_all(&lockdir)?;", ""),
+                   ("let mut r = BufReader::new(std::io::stdin().lock());", ""),
+                   ("let mut w = BufWriter::new(std::io::stdout().lock());", ""),
+                   ('if !super::wire::read_magic(&mut r)? { return Err("client sent a bad protocol prologue (not copia)".into()); }',
+                    "let some (ok_, rest0_) := readMagic input | return (some { replies := [], tree := tree, exit := Exit.ioError, allocs := [] })\n"
+                    "if !ok_ then\n  return (some { replies := [], tree := tree, exit := Exit.badPrologue, allocs := [] })\ninput := rest0_"),
+                   ("let fps = discover_local_fingerprints(root).unwrap_or_default();", ""),
+                   ('let map = fps .into_iter() .filter(|(p, _)| !p.starts_with(".copia")) .map(|(p, f)| (p.to_string_lossy().into_owned(), f)) .collect();',
+                    'let map := (tree.filter fun e => e.1.head? ≠ some ".copia".toList).map fun e => (e.1, hash e.2)')]),
     dict(group="hubsync", file="src/bin/copia/hub.rs", fn="hub_sync", sig=None,
          name="hub_sync (the push loop: from the counters to the end of the `for`)",
          slice=("let (mut sent, mut skipped, mut conflicts) = (0u64, 0u64, 0u64);", "hub kept a conflict-copy\");"), slice_close=2,
@@ -1240,7 +1311,7 @@ GROUP_HEAD = {
     "hubsync": ("import Copia.Model.HubSync", ""),
     "archive": ("", ""),
     "codec": ("import Copia.Model.Codec\nimport Copia.Gen.Decisions", "open Copia.Codec"),
-    "wire": ("import Copia.Model.Hub\nimport Copia.Model.WireSupport", "open Copia.WireSupport (FrameRes)"),
+    "wire": ("import Copia.Model.Hub\nimport Copia.Model.WireSupport", "open Copia.WireSupport (FrameRes)\nopen Copia.Hub (Req Reply Session Exit HTree)"),
     "hubput": ("import Copia.Model.HubTrace\nimport Copia.Model.Hub", "open Copia.HubConc (Call Chunk Hash)"),
     "deliver": ("import Copia.Model.Deliver", "open Copia.Deliver (DStep)"),
     "crash": ("import Copia.Model.Crash", "open Copia.Crash (Side FsStep)"),
